@@ -1,7 +1,7 @@
 (* Search/NumericCorr.v — correspondence cases for the numeric engine: each case carries
    the implementation's observed output; check re-computes it with the model. *)
 From Coq Require Import ZArith List Bool.
-From Bluge Require Import Base.Int64 Base.Res Base.Corr Gen.ParamsNumeric Search.Numeric.
+From Bluge Require Import Base.Int64 Base.Res Base.Corr Gen.ParamsNumeric Search.Numeric Search.NumericSource.
 Import ListNotations.
 Open Scope Z_scope.
 
@@ -19,7 +19,10 @@ Inductive ncase :=
 | CTokensKind (kind : Z) (v : Z) (out : list (list Z))
 (* DateRangeQuery end to end: end points as the float64 bit patterns handed to the numeric searcher
    (Int64ToFloat64 of the nanoseconds, or an infinity for an open end), document values in nanoseconds *)
-| CDateQ (loBits hiBits : Z) (il ih : bool) (docs : list Z) (out : list bool).
+| CDateQ (loBits hiBits : Z) (il ih : bool) (docs : list Z) (out : list bool)
+(* a match-all search sorted on the numeric field: document values (bit patterns) in document
+   order, and in the order returned (ascending, or descending when desc) *)
+| CSort (desc : bool) (docs : list Z) (out : list Z).
 
 (* insertion sort of byte strings (the harness sorts observed token sets bytewise) *)
 Fixpoint insert_bytes (t : list Z) (l : list (list Z)) : list (list Z) :=
@@ -28,6 +31,17 @@ Fixpoint insert_bytes (t : list Z) (l : list (list Z)) : list (list Z) :=
   | h :: r => if bytes_le t h then t :: l else h :: insert_bytes t r
   end.
 Definition sort_bytes (l : list (list Z)) : list (list Z) := fold_right insert_bytes [] l.
+
+(* insertion sort of values by their sort key (FieldSource.Value over the index tokens) *)
+Fixpoint insert_keyed (x : Z) (k : list Z) (l : list (Z * list Z)) : list (Z * list Z) :=
+  match l with
+  | [] => [(x, k)]
+  | (y, ky) :: r => if bytes_le k ky then (x, k) :: l else (y, ky) :: insert_keyed x k r
+  end.
+Definition sort_key (x : Z) : list Z :=
+  match source_value (index_tokens (f2i x) numeric_precision_step) with Some k => k | None => [] end.
+Definition sort_values (docs : list Z) : list Z :=
+  map fst (fold_right (fun x acc => insert_keyed x (sort_key x) acc) [] docs).
 
 Definition check (c : ncase) : bool :=
   match c with
@@ -70,6 +84,10 @@ Definition check (c : ncase) : bool :=
       | Ok terms => list_eqb Bool.eqb (map (fun v => existsb (fun t => existsb (bytes_eqb t) terms) (toks v)) docs) out
       | _ => false
       end
+  | CSort desc docs out =>
+      let sorted := sort_values docs in
+      list_eqb Z.eqb (if desc then rev sorted else sorted) out &&
+      forallb (fun x => list_eqb Z.eqb (source_numbers (index_tokens (f2i x) numeric_precision_step)) [x]) docs
   end.
 
 Definition mismatches (l : list ncase) : list nat := failing check l.
